@@ -2,18 +2,23 @@
 granularity — the `closed` flag is flipped under the connection mutex in five places (`closeWithError`, and the
 error branches of `Write`, `Writev`, `flush`, `Sendfile`); the teardown (`closeWithErrorWithoutLock`: record the
 cause, fail a pending dial, release the write queue, leave the fd table, notify, close the descriptor) runs
-outside that critical section and only in the goroutine that flipped the flag; `addConn` is three separate
-statements (open notification, fd table, epoll registration); an asynchronous dial is `pending` until the poller
-sees writability (`dialed`: SO_ERROR decides) or the close path fails it.
+outside that critical section and only in the goroutine that flipped the flag; `addConn` is a closed test and four
+separate statements (`c.p = p`, open notification, fd table, epoll registration); an asynchronous dial is `pending` until the
+poller sees writability (`dialed`: SO_ERROR decides) or the close path fails it; the dial timeout is armed in a
+separate step, only while the dial is pending.
+
+Every state the driver (`Driver/LifeMain.lean`) compares with the code is produced by `step` from `mk kind`: the
+theorems of `Properties/C03.lean` apply to exactly those states.
 
 Go code mirrored: conn_unix.go closeWithError / closeWithErrorWithoutLock / dialed / Write / Writev / Sendfile /
-flush (closed test and error branch), conn.go Execute (closed test), poller_epoll.go addConn / addDialer /
-deleteConn / readWriteLoop (dial branch, error flags), engine_unix.go DialAsyncTimeout. Core Lean only. -/
+flush (closed test and error branch) / setDeadline / readUDP+getConn (session open), conn.go Execute (closed test),
+poller_epoll.go addConn / addDialer / deleteConn / readWriteLoop (dial branch, error flags), engine_unix.go
+DialAsyncTimeout, engine.go OnOpen/OnClose wrappers (connection wait group). Core Lean only. -/
 namespace Life
 
 inductive Err
   | nil | eof | closed | rtimeout | wtimeout | dtimeout | overflow | epipe | refused | reset | unreach
-  | again | user (k : Nat) | other
+  | again | ebadf | eexist | user (k : Nat) | other
   deriving DecidableEq, Repr
 
 inductive Kind | add | acc | dial | sess | udp deriving DecidableEq, Repr
@@ -24,7 +29,7 @@ inductive Item | buf (n : Nat) | file (n : Nat) deriving DecidableEq, Repr
 
 structure Conn where
   kind : Kind
-  visible : Bool := false       -- somebody besides the creating call can reach the conn (callback ran / in fd table)
+  visible : Bool := false       -- somebody besides the creating call can reach the conn (announced / registered)
   pSet : Bool := false          -- c.p is assigned: the teardown notifies the engine
   opens : Nat := 0              -- open notifications
   closed : Bool := false        -- c.closed
@@ -35,7 +40,7 @@ structure Conn where
   dial : DialSt := .none
   dialN : Nat := 0              -- reports of the dial outcome (callback invocations, or the error return)
   dialOk : Nat := 0             -- of which "connected"
-  connected : Bool := false     -- ghost: the kernel completed the connect successfully
+  kres : Option (Option Err) := none   -- the kernel's verdict on the connect: not yet / connected / failed with e
   inTable : Bool := false
   reg : Bool := false
   q : List Item := []           -- write queue
@@ -44,15 +49,22 @@ structure Conn where
   wTdial : Bool := false        -- … and it is the dial timeout
   log : Nat := 0                -- syscalls issued on the descriptor
   fdOpen : Bool := true
+  add : Nat := 0                -- addConn: 0 not started, 1 closed test passed, 2 `c.p` set, 3 announced, 4 in table, 5 done, 6 refused
+  wg : Int := 0                 -- ghost: this conn's contribution to the engine's connection wait group
   early : Bool := false         -- ghost: a close notification was issued before the open notification
-  add : Nat := 0                -- how many of `addConn`'s three statements have run
+  raced : Bool := false         -- ghost: the holder of the *Conn closed it between addConn's closed test and its open notification
+  unmanaged : Bool := false     -- ghost: the teardown ran while no poller owned the conn (no notification)
+  byDialTimer : Bool := false   -- ghost: the flag was flipped by the dial timeout
   deriving DecidableEq, Repr
+
+def mk (k : Kind) : Conn := { kind := k }
 
 /-- the locked test-and-set of `closed` (one of the five places); `stop`: `closeWithError` also stops the timers -/
 def flip (c : Conn) (e : Err) (stop : Bool) : Conn :=
   if c.closed then c
   else { c with closed := true, td := some e, cause := some e,
-                rT := if stop then false else c.rT, wT := if stop then false else c.wT }
+                rT := if stop then false else c.rT, wT := if stop then false else c.wT,
+                raced := c.raced || decide (c.add = 1 ∨ c.add = 2) }
 
 /-- `closeWithErrorWithoutLock`, run by the flipper after the flip -/
 def teardown (c : Conn) : Conn :=
@@ -64,78 +76,126 @@ def teardown (c : Conn) : Conn :=
              dialN := if c.dial = .pending then c.dialN + 1 else c.dialN,
              q := [], inTable := false,
              closeN := if c.pSet = true ∧ c.kind ≠ .udp then c.closeN + 1 else c.closeN,
+             wg := if c.pSet = true ∧ c.kind ≠ .udp then c.wg - 1 else c.wg,
              early := c.early || decide (c.pSet = true ∧ c.kind ≠ .udp ∧ c.opens = 0 ∧ c.kind ≠ .dial),
+             unmanaged := c.unmanaged || !c.pSet,
              log := c.log + 1, fdOpen := false }
-
-/-- `Close` / `CloseWithError` / timer / poller close as one sequential call -/
-def closeNow (c : Conn) (e : Err) : Conn := if c.closed then c else teardown (flip c e true)
-
-/-- error branch of a write-like call: flip without touching the timers, then tear down -/
-def failNow (c : Conn) (e : Err) : Conn := if c.closed then c else teardown (flip c e false)
-
-inductive OpKind | write | writev | sendfile | execute | read deriving DecidableEq, Repr
 
 /-- a user operation on the conn: refused with the closed indication once the flag is set, and then without
     touching the descriptor; `sys` = number of syscalls it issues when the conn is open -/
 def userOp (c : Conn) (sys : Nat) : Conn × Bool :=
   if c.closed then (c, false) else ({ c with log := c.log + sys }, true)
 
-/-- `addConn`'s three statements -/
-def addOpen (c : Conn) : Conn := { c with pSet := true, opens := c.opens + 1, visible := true }
-def addTable (c : Conn) : Conn := { c with inTable := true }
+/-- `Close` / `CloseWithError` as one sequential call (flipper runs the teardown before it returns) -/
+def closeNow (c : Conn) (e : Err) : Conn := if c.closed then c else teardown (flip c e true)
+
+/-- `addConn`: the closed test (an already closed conn is refused), then the four statements -/
+def addCheck (c : Conn) : Conn := if c.closed then { c with add := 6 } else { c with add := 1 }
+def addP (c : Conn) : Conn := { c with pSet := true, add := 2 }
+def addOpen (c : Conn) : Conn := { c with opens := c.opens + 1, visible := true, wg := c.wg + 1, add := 3 }
+def addTable (c : Conn) : Conn := { c with inTable := true, add := 4 }
 /-- `addRead`: on a descriptor that was closed meanwhile (a `Close` from inside the open notification) epoll_ctl
     fails, `addConn` takes the conn out of the table again and its `closeWithError` finds the flag already set -/
 def addReg (c : Conn) : Conn :=
-  if c.fdOpen then { c with reg := true, log := c.log + 1 } else { c with inTable := false }
+  if c.fdOpen then { c with reg := true, log := c.log + 1, add := 5 } else { c with inTable := false, add := 5 }
+
+/-- `readUDP`: `getConn` creates the session of a new remote and `onOpen` announces it (under the listener's mutex) -/
+def sessOpen (c : Conn) : Conn := { c with pSet := true, opens := c.opens + 1, visible := true, wg := c.wg + 1, add := 5 }
+
+/-- `AddConn` of a UDP listener: `onUDPListen`, table, registration; the listener itself is not counted or notified -/
+def udpListen (c : Conn) : Conn := { c with pSet := true, visible := true, inTable := true, reg := true, add := 5, log := c.log + 1 }
 
 /-- `DialAsyncTimeout` after a connect that is in progress: conn with the callback stored, `addDialer` -/
-def dialStart (c : Conn) (timeout : Bool) : Conn :=
-  { c with dial := .pending, pSet := true, inTable := true, reg := true, visible := true, log := c.log + 2,
-           wT := timeout, wTdial := timeout }
+def dialStart (c : Conn) : Conn :=
+  { c with dial := .pending, pSet := true, inTable := true, reg := true, visible := true, log := c.log + 2, wg := c.wg + 1 }
+
+/-- `DialAsyncTimeout` fails before anybody can see the conn (connect(2) error, or `addDialer`'s registration fails):
+    the error return is the one report, the descriptor is closed, the wait group is released again -/
+def dialStartFail (c : Conn) (e : Err) : Conn :=
+  { c with dial := .done, dialN := c.dialN + 1, closed := true, cause := some e, cerr := e, fdOpen := false,
+           inTable := false, unmanaged := true, log := c.log + 1 }
 
 /-- `DialAsyncTimeout` after a connect that completed at once: the success is reported through `Async` -/
 def dialNow (c : Conn) : Conn :=
-  { c with dial := .done, dialN := c.dialN + 1, dialOk := c.dialOk + 1, connected := true, pSet := true,
-           inTable := true, reg := true, visible := true, log := c.log + 2 }
+  { c with dial := .done, dialN := c.dialN + 1, dialOk := c.dialOk + 1, kres := some none, pSet := true,
+           inTable := true, reg := true, visible := true, log := c.log + 2, wg := c.wg + 1 }
 
-/-- `dialed`: the poller saw writability on a dialing conn; `soerr = none` means SO_ERROR is 0 -/
-def dialed (c : Conn) (soerr : Option Err) : Conn :=
+/-- the dial timeout: armed under the mutex and only while the dial is still pending -/
+def armDial (c : Conn) : Conn :=
+  if !c.closed && c.dial == .pending then { c with wT := true, wTdial := true } else c
+
+/-- `dialed`: the poller saw writability on a dialing conn, SO_ERROR (= the kernel's verdict) decides -/
+def dialed (c : Conn) : Conn :=
   if c.dial != .pending then c
   else
     let c := { c with log := c.log + 1 }
-    match soerr with
-    | some e => flip c e true            -- `closeWithError(errno)`: the teardown (separate step) fails the dial
-    | none =>
+    match c.kres with
+    | some (some e) => flip c e true            -- `closeWithError(errno)`: the teardown (separate step) fails the dial
+    | _ =>
       if c.closed then c
-      else { c with dial := .done, dialN := c.dialN + 1, dialOk := c.dialOk + 1, connected := true, wT := false, wTdial := false }
+      else { c with dial := .done, dialN := c.dialN + 1, dialOk := c.dialOk + 1, wT := false, wTdial := false }
+
+/-- the write timer fires: `closeWithError(errWriteTimeout | ErrDialTimeout)` -/
+def timerW (c : Conn) : Conn :=
+  if c.closed then c
+  else { flip c (if c.wTdial then .dtimeout else .wtimeout) true with byDialTimer := c.wTdial }
 
 inductive Act
-  | addOpen | addTable | addReg
-  | dialStart (timeout : Bool) | dialNow
-  | dialed (soerr : Option Err)
-  | flip (e : Err) (stop : Bool)         -- any goroutine: user, timer, poller, write error branch
+  | addCheck | addP | addOpen | addTable | addReg
+  | sessOpen | udpListen
+  | dialStart | dialStartFail (e : Err) | dialNow | armDial
+  | kconnect (r : Option Err)            -- the kernel finishes the non-blocking connect
+  | dialed
+  | flip (e : Err) (stop : Bool)         -- any goroutine: user, poller, write error branch
   | teardown                            -- the flipper
+  | timerR | timerW                     -- a deadline timer fires
+  | setDl (r w : Bool)                  -- SetReadDeadline / SetWriteDeadline / SetDeadline
+  | clearW                              -- a Write that leaves the queue empty (or the dial success path) drops the write deadline
+  | setQ (q : List Item)                -- a write-path call changes the write queue (under the mutex)
   | op (sys : Nat)                      -- Write / Writev / Sendfile / Execute / Read by a user
   deriving Repr
 
-/-- enabling conditions = who can reach the conn when: a conn under `addConn` is reachable by others once its open
-    notification has run (that is why the notification is the first statement); the poller acts on what is in the
-    fd table; the teardown belongs to the flipper; a dial event only matters while the dial is pending -/
+/-- enabling conditions = who can reach the conn when. The caller of `AddConn` holds the `*Conn` all along, so it can
+    flip at any time (`kind = add`); accepted conns, sessions and dialing conns are reachable by others only once
+    they were announced / registered. The poller acts on what is in the fd table; the teardown belongs to the flipper;
+    writability of a dialing socket is only reported once the kernel has a verdict (assumption). -/
 def step (c : Conn) : Act → Option Conn
-  | .addOpen => if (c.kind == .add || c.kind == .acc || c.kind == .sess) && c.add == 0 then some { addOpen c with add := 1 } else none
-  | .addTable => if (c.kind == .add || c.kind == .acc) && c.opens == 1 && c.add == 1 then some { addTable c with add := 2 } else none
-  | .addReg => if (c.kind == .add || c.kind == .acc) && c.add == 2 then some { addReg c with add := 3 } else none
-  | .dialStart t => if c.kind == .dial && c.dial == .none && !c.closed then some (dialStart c t) else none
+  | .addCheck => if (c.kind == .add || c.kind == .acc) && c.add == 0 then some (addCheck c) else none
+  | .addP => if (c.kind == .add || c.kind == .acc) && c.add == 1 then some (addP c) else none
+  | .addOpen => if (c.kind == .add || c.kind == .acc) && c.add == 2 then some (addOpen c) else none
+  | .addTable => if (c.kind == .add || c.kind == .acc) && c.add == 3 then some (addTable c) else none
+  | .addReg => if (c.kind == .add || c.kind == .acc) && c.add == 4 then some (addReg c) else none
+  | .sessOpen => if c.kind == .sess && c.add == 0 && !c.closed then some (sessOpen c) else none
+  | .udpListen => if c.kind == .udp && c.add == 0 && !c.closed then some (udpListen c) else none
+  | .dialStart => if c.kind == .dial && c.dial == .none && !c.closed then some (dialStart c) else none
+  | .dialStartFail e => if c.kind == .dial && c.dial == .none && !c.closed then some (dialStartFail c e) else none
   | .dialNow => if c.kind == .dial && c.dial == .none && !c.closed then some (dialNow c) else none
-  | .dialed so => if c.kind == .dial && c.inTable then some (dialed c so) else none
-  | .flip e st => if c.visible then some (flip c e st) else none
+  | .armDial => if c.kind == .dial && c.visible then some (armDial c) else none
+  | .kconnect r => if c.kind == .dial && c.dial == .pending && c.kres.isNone then some { c with kres := some r } else none
+  | .dialed => if c.kind == .dial && c.inTable && c.kres.isSome then some (dialed c) else none
+  | .flip e st => if c.visible || c.kind == .add then some (flip c e st) else none
   | .teardown => if c.td.isSome then some (teardown c) else none
-  | .op sys => if c.visible then some (userOp c sys).1 else none
+  | .timerR => if c.rT && c.visible then some (flip c .rtimeout true) else none
+  | .timerW => if c.wT && c.visible then some (timerW c) else none
+  | .setDl r w =>
+    if c.visible && !c.closed then
+      some { c with rT := c.rT || r, wT := c.wT || w, wTdial := if w && !c.wT then false else c.wTdial }
+    else none
+  | .clearW => if c.visible && !c.closed then some { c with wT := false, wTdial := false } else none
+  | .setQ q => if c.visible && !c.closed then some { c with q := q } else none
+  | .op sys => if c.visible || c.kind == .add then some (userOp c sys).1 else none
 
 def run (c : Conn) : List Act → Conn
   | [] => c
   | a :: as => match step c a with
     | some c' => run c' as
     | none => run c as
+
+/-- all steps of the list are enabled, in turn (what the driver uses: a disabled step is a model error) -/
+def runAll (c : Conn) : List Act → Option Conn
+  | [] => some c
+  | a :: as => match step c a with
+    | some c' => runAll c' as
+    | none => none
 
 end Life
